@@ -218,11 +218,12 @@ class VMatch(Value):
 # ---------------------------------------------------------------- heap cells
 
 class ListCell:
-    __slots__ = ('seq', 'kind')
+    __slots__ = ('seq', 'kind', 'joined')
 
-    def __init__(self, seq, kind):
+    def __init__(self, seq, kind, joined=None):
         self.seq = seq
         self.kind = kind
+        self.joined = joined      # for lists of str built by append only: concatenation of all elements
 
 
 class DictCell:
